@@ -433,6 +433,22 @@ def rule_unsupported(run, F, cfg):
     run.ob("C03.4.unsupported-schemes", "no-csp-probe-when-unsupported", ok2,
            "get_csp_directives probes the csp list only when request.is_supported (an ftp:// document gets no policy)",
            site=g2.loc(0), config=cfg)
+    # every other probe of a rule list: guarded in the function itself, or in every caller of that function
+    n_sites = 0
+    for name, g in sorted(F.fns.items()):
+        if name in (f.name, g2.name) or name.startswith("network_filter_list::") or "{closure" in name:
+            continue
+        pr = g.calls(r"^network_filter_list::NetworkFilterList::check(_all)?$")
+        if not pr:
+            continue
+        n_sites += len(pr)
+        own = all(has_cond(dominating_conditions(g, b), r"^arg:\w+\.is_supported$", 1) for b, _ in pr)
+        callers = [(c, cb) for c, cb, ct in F.callers_of("^" + re.escape(name) + "$")]
+        via = bool(callers) and all(has_cond(dominating_conditions(c, cb), r"^arg:\w+\.is_supported$", 1) for c, cb in callers)
+        run.ob("C03.4.unsupported-schemes", f"no-probe-when-unsupported:{name.split('::')[-1]}", own or via,
+               f"{name} probes a rule list ({len(pr)} site(s)) only for a request with a supported scheme: guarded in "
+               f"the function ({own}) or at every one of its {len(callers)} call site(s) ({via})", site=g.loc(0), config=cfg)
+    run.floor("C03.4.unsupported-schemes", f"further list probes outside check_parameterised / get_csp_directives [{cfg}]", n_sites, 2)
 
 
 def rule_domains(run, F, cfg):
